@@ -661,6 +661,9 @@ class CallMixin(object):
       return VBool(z3.PrefixOf(args[0].t, base.t))
     if meth == 'endswith' and len(args) == 1 and isinstance(args[0], VStr):
       return VBool(z3.SuffixOf(args[0].t, base.t))
+    if meth in ('startswith', 'endswith') and len(args) == 1 and self.mode == 'event':
+      # the prefix is an opaque value: an uninterpreted predicate of (string, prefix), the same in both programs
+      return self.pure_app('str.' + meth, [base] + list(args), 'bool', st)
     rt = {'split': 'Seq[str]', 'isdigit': 'bool', 'join': 'str', 'format': 'str', 'strip': 'str',
           'lstrip': 'str', 'rstrip': 'str', 'lower': 'str', 'splitlines': 'Seq[str]'}.get(meth)
     if rt is None:
